@@ -792,7 +792,123 @@ end Bycycle.Slots
 """ % ('true' if rounds else 'false', mlo, mhi, mp)
     return 'SlotsPlots.lean', lean
 
-GROUPS = [detect_slots, cyclepoints_slots, shape_slots, burstfeat_slots, kwargs_shape_slots, group_slots, frames_slots, effects_slots, plots_slots]
+
+# ------------------------------------------------------------------ shape arithmetic (C04): TRANSLATED column expressions
+class _Outside(Exception):
+    pass
+
+def _sx(node, env, df_name, sig_name):
+    """translate a column-arithmetic expression to a Lean SExpr term"""
+    if isinstance(node, ast.Subscript) and isinstance(node.value, ast.Name):
+        if node.value.id == df_name and isinstance(node.slice, ast.Constant) and isinstance(node.slice.value, str):
+            return '(.col "%s")' % node.slice.value
+        if node.value.id == sig_name:
+            return '(.sigAt %s)' % _sx(node.slice, env, df_name, sig_name)
+        if node.value.id in env and isinstance(env[node.value.id], dict) and isinstance(node.slice, ast.Constant):
+            return env[node.value.id][node.slice.value]
+    if isinstance(node, ast.Name) and node.id in env and isinstance(env[node.id], str):
+        return env[node.id]
+    if isinstance(node, ast.BinOp) and type(node.op) in (ast.Add, ast.Sub, ast.Div, ast.Mult):
+        op = {ast.Add: 'add', ast.Sub: 'sub', ast.Div: 'div', ast.Mult: 'mul'}[type(node.op)]
+        return '(.%s %s %s)' % (op, _sx(node.left, env, df_name, sig_name), _sx(node.right, env, df_name, sig_name))
+    if isinstance(node, ast.Constant) and isinstance(node.value, (int, float)) and not isinstance(node.value, bool):
+        return '(.const %s)' % _rat(node.value)
+    if isinstance(node, ast.UnaryOp) and isinstance(node.op, ast.USub):
+        return '(.sub (.const (0 : Rat)) %s)' % _sx(node.operand, env, df_name, sig_name)
+    raise _Outside('expression outside grammar: ' + ast.unparse(node))
+
+def _sym_exec(fn, env, df_name, sig_name):
+    """run the straight-line body of a small feature function symbolically; returns the value of its return statement"""
+    for st in fn.body:
+        if isinstance(st, ast.Expr) and isinstance(st.value, ast.Constant):
+            continue                                   # docstring
+        if isinstance(st, ast.Assign) and len(st.targets) == 1:
+            t = st.targets[0]
+            if isinstance(t, ast.Name) and isinstance(st.value, ast.Dict) and not st.value.keys:
+                env[t.id] = {}
+            elif isinstance(t, ast.Name):
+                env[t.id] = _sx(st.value, env, df_name, sig_name)
+            elif isinstance(t, ast.Subscript) and isinstance(t.value, ast.Name) and isinstance(env.get(t.value.id), dict) and isinstance(t.slice, ast.Constant):
+                env[t.value.id][t.slice.value] = _sx(st.value, env, df_name, sig_name)
+            else:
+                raise _Outside('assignment outside grammar: ' + ast.unparse(st))
+        elif isinstance(st, ast.If) and all(isinstance(c, ast.Compare) and isinstance(c.ops[0], ast.Is) for c in (st.test.values if isinstance(st.test, ast.BoolOp) else [st.test])):
+            names = [c.left.id for c in (st.test.values if isinstance(st.test, ast.BoolOp) else [st.test])]
+            if all(n in env for n in names):
+                continue                               # `if period is None or …:` with the values supplied by the caller
+            raise _Outside('None-test on a missing value')
+        elif isinstance(st, ast.Return):
+            v = st.value
+            if isinstance(v, ast.Tuple):
+                return [_sx(e, env, df_name, sig_name) for e in v.elts]
+            if isinstance(v, ast.Name) and isinstance(env.get(v.id), dict):
+                return env[v.id]
+            return _sx(v, env, df_name, sig_name)
+        else:
+            raise _Outside('statement outside grammar: ' + ast.unparse(st)[:60])
+    raise _Outside('no return')
+
+PINNED_SHAPE = [
+ ('period', '(.sub (.col "sample_next_trough") (.col "sample_last_trough"))'),
+ ('time_peak', '(.sub (.col "sample_zerox_decay") (.col "sample_zerox_rise"))'),
+ ('time_trough', '(.sub (.col "sample_zerox_rise") (.col "sample_last_zerox_decay"))'),
+ ('volt_peak', '(.sigAt (.col "sample_peak"))'),
+ ('volt_trough', '(.sigAt (.col "sample_last_trough"))'),
+ ('time_decay', '(.sub (.col "sample_next_trough") (.col "sample_peak"))'),
+ ('time_rise', '(.sub (.col "sample_peak") (.col "sample_last_trough"))'),
+ ('volt_decay', '(.sub (.sigAt (.col "sample_peak")) (.sigAt (.col "sample_next_trough")))'),
+ ('volt_rise', '(.sub (.sigAt (.col "sample_peak")) (.sigAt (.col "sample_last_trough")))'),
+ ('volt_amp', '(.div (.add (.sub (.sigAt (.col "sample_peak")) (.sigAt (.col "sample_next_trough"))) (.sub (.sigAt (.col "sample_peak")) (.sigAt (.col "sample_last_trough")))) (.const (2 : Rat)))'),
+ ('time_rdsym', '(.div (.sub (.col "sample_peak") (.col "sample_last_trough")) (.sub (.col "sample_next_trough") (.col "sample_last_trough")))'),
+ ('time_ptsym', '(.div (.sub (.col "sample_zerox_decay") (.col "sample_zerox_rise")) (.add (.sub (.col "sample_zerox_decay") (.col "sample_zerox_rise")) (.sub (.col "sample_zerox_rise") (.col "sample_last_zerox_decay"))))'),
+ ('band_amp', '.bandAmp')]
+
+def shape_expr_slots(S):
+    sp = 'bycycle/features/shape.py'
+    def defs():
+        dur = _sym_exec(_func(sp, 'compute_durations'), {}, 'df_samples', 'sig')
+        ev = _sym_exec(_func(sp, 'compute_extrema_voltage'), {}, 'df_samples', 'sig')
+        main = _func(sp, 'compute_shape_features')
+        env = {}
+        out = None
+        for st in main.body:
+            src = ast.unparse(st)
+            if src == 'period, time_peak, time_trough = compute_durations(df_samples)':
+                env.update(period=dur[0], time_peak=dur[1], time_trough=dur[2])
+            elif src == 'volt_peak, volt_trough = compute_extrema_voltage(df_samples, sig)':
+                env.update(volt_peak=ev[0], volt_trough=ev[1])
+            elif src.startswith('sym_features = compute_symmetry(df_samples, sig'):
+                call = st.value
+                kw = {k.arg: _sx(k.value, env, 'df_samples', 'sig') for k in call.keywords}
+                env['sym_features'] = _sym_exec(_func(sp, 'compute_symmetry'), dict(kw), 'df_samples', 'sig')
+            elif src.startswith('band_amp = compute_band_amp(df_samples, sig, fs, f_range'):
+                env['band_amp'] = '.bandAmp'
+            elif src == 'shape_features = {}':
+                env['shape_features'] = {}
+            elif isinstance(st, ast.Assign) and isinstance(st.targets[0], ast.Subscript) and ast.unparse(st.targets[0].value) == 'shape_features':
+                env['shape_features'][st.targets[0].slice.value] = _sx(st.value, env, 'df_samples', 'sig')
+            elif src == 'df_shape_features = pd.DataFrame.from_dict(shape_features)':
+                out = list(env['shape_features'].items())
+        if out is None:
+            raise _Outside('table assembly not found')
+        if sorted(k for k, _ in out) != sorted(k for k, _ in PINNED_SHAPE):
+            raise _Outside('unexpected set of shape columns')
+        return out
+    got = S.get('shape.column_expressions', PINNED_SHAPE, defs)
+    lean = """/- GENERATED by harness/slots.py: TRANSLATION of the column arithmetic of bycycle/features/shape.py
+   (compute_durations, compute_extrema_voltage, compute_symmetry and the table assembly of compute_shape_features),
+   every column fully inlined down to sample columns and signal look-ups. Do not edit. -/
+import BycycleModel.ShapeExpr
+namespace Bycycle.Slots
+
+def shapeDefs : List (String × SExpr) := [
+%s]
+
+end Bycycle.Slots
+""" % ',\n'.join('  ("%s", %s)' % kv for kv in got)
+    return 'SlotsShapeExpr.lean', lean
+
+GROUPS = [detect_slots, cyclepoints_slots, shape_slots, burstfeat_slots, kwargs_shape_slots, group_slots, frames_slots, effects_slots, plots_slots, shape_expr_slots]
 
 def write_if_changed(path, text):
     try:
